@@ -31,7 +31,7 @@ invariant
         && self.ignores.m@[cur(env)[i].g.root].gitignore == cur(env)[i].g && cur(env)[i].parents == path_anc(self.origin, *path), // OBL:C03+C14.match_path.inv_asks_the_stored_files
     path_anc(*search_path, *path), // OBL:C03+C14.match_path.inv_search_stays_on_the_ancestor_chain
     covered_below(self.ignores.m@, *path, *search_path, cur(env)), // OBL:C03+C14.match_path.inv_every_nearer_ignore_file_consulted
-decreases disp_len(*search_path),
+decreases disp_len(*search_path), // OBL:C03+C14.match_path.the_walk_terminates
 //@ item FileType
 //@ item IgnoreFilterer
 //@ item IgnoreFilterer::check_event
